@@ -103,6 +103,16 @@ var normFns = []NormFn{
 	{0, func(_ string, l int) float32 { return float32(1.0 / math.Sqrt(float64(l)+1)) }},
 	{1, func(_ string, l int) float32 { return float32(l) + 0.5 }},
 	{2, func(n string, l int) float32 { return float32(len(n)+1)*0.25 + float32(l)*3 }},
+	// extreme but positive values: tiny, huge, and a mantissa with its low bits set
+	{3, func(n string, l int) float32 {
+		switch (l + len(n)) % 3 {
+		case 0:
+			return 1e-30 * float32(l+1)
+		case 1:
+			return 3e30
+		}
+		return math.Float32frombits(0x3f800001 + uint32(l))
+	}},
 }
 
 // ---- expectation: what a segment over these documents must answer ----
